@@ -2,7 +2,7 @@
 # usage: tools/seedtest.sh <patch.diff> <property id> [tier]
 # applies a seeded change to /repo, runs the check, and always restores /repo
 set -u
-P="$1"; ID="$2"; TIER="${3:-quick}"
+P="$(realpath "$1")"; ID="$2"; TIER="${3:-quick}"
 cd /verif
 if ! git -C /repo apply --check "$P" 2>/dev/null; then echo "seedtest: patch does not apply: $P"; exit 3; fi
 git -C /repo apply "$P"
